@@ -169,7 +169,7 @@ def run_check(tier, seed):
     r = run.rng
     basic.load_theory('logic_base')
     thys = ['logic', 'set', 'function', 'nat'] if tier == 'quick' else ['logic_base', 'logic', 'set', 'function', 'nat', 'int', 'list', 'order', 'real', 'hoare', 'lattice']
-    steps = library_steps(run, thys, r, 12 if tier == 'quick' else 40, budget_s=None if tier == 'quick' else 900)
+    steps = library_steps(run, thys, r, 12 if tier == 'quick' else 40, budget_s=None if tier == 'quick' else 600)
     cap = 500 if tier == 'quick' else 2500
     if len(steps) > cap:
         r.shuffle(steps)
@@ -179,7 +179,7 @@ def run_check(tier, seed):
     import time
     t_judge = time.time()
     for rule, args, prev_ths, where, ctx_info in steps:
-        if tier != 'quick' and time.time() - t_judge > 1200:
+        if tier != 'quick' and time.time() - t_judge > 700:
             run.stat('judging_budget_reached')
             break
         if ctx_info != cur_ctx:
@@ -217,7 +217,11 @@ def run_check(tier, seed):
         k = r.randrange(1, len(ms))
         return op(nest(op, ms[:k]), nest(op, ms[k:]))
     n_gen = 60 if tier == 'quick' else 600
+    t_stage = time.time()
     for i in range(n_gen):
+        if tier != 'quick' and time.time() - t_stage > 250:
+            run.stat('generated_propositional_budget_reached_at:%d' % i)
+            break
         ms = [r.choice(atoms) for _ in range(r.choice([1, 2, 3, 4]))]
         sub = [m for m in ms if r.random() < 0.7] or ms[:1]
         extra = [r.choice(atoms)] if r.random() < 0.3 else []
@@ -239,7 +243,11 @@ def run_check(tier, seed):
         context.set_context('nat', vars={'x': 'nat', 'y': 'nat', 'z': 'nat'})
         import c10
         P = c10.Poly(r, TConst('nat'), None)
+        t_stage = time.time()
         for i in range(n_gen // 2):
+            if tier != 'quick' and time.time() - t_stage > 120:
+                run.stat('generated_nat_norm_budget_reached_at:%d' % i)
+                break
             e1 = P.expr(r.choice([1, 2, 3]))
             e2 = P.rearrange(e1, r.choice([1, 3, 6])) if r.random() < 0.8 else P.expr(2)
             goal = Eq(e1, e2)
@@ -249,6 +257,33 @@ def run_check(tier, seed):
         raise
     except Exception as e:
         run.stat('nat_norm_gen:' + type(e).__name__)
+    # ---- the numeral macros of data/nat.py (binary numerals): structured classes of numbers (small, powers of two and their
+    #      neighbours, odd multiples of powers of two), compared with 0, 1, a neighbour, a double; true and false goals
+    try:
+        context.set_context('nat', vars={})
+        from kernel.term import Nat, less_eq as _le, less as _lt
+        from kernel.type import NatType
+        nums = sorted(set(list(range(0, 34)) + [2 ** k + d for k in range(5, 11) for d in (-1, 0, 1)] +
+                          [k * 2 ** s_ for k in (3, 5, 7, 11, 13) for s_ in (1, 2, 3, 5)] + [r.randrange(34, 5000) for _ in range(20 if tier == 'quick' else 200)]))
+        pairs = []
+        for m in nums:
+            pairs += [(m, 0), (0, m), (m, 1), (1, m), (m, m + 1), (m + 1, m), (m, m), (m, 2 * m), (m, r.choice(nums))]
+        r.shuffle(pairs)
+        t_stage = time.time()
+        for m, n in pairs[:(150 if tier == 'quick' else 3000)]:
+            if tier != 'quick' and time.time() - t_stage > 200:
+                run.stat('numeral_budget_reached')
+                break
+            for rule, goal in (('nat_const_ineq', Not(Eq(Nat(m), Nat(n)))), ('nat_const_less_eq', _le(NatType)(Nat(m), Nat(n))),
+                               ('nat_const_less', _lt(NatType)(Nat(m), Nat(n)))):
+                if rule not in theory.global_macros:
+                    continue
+                res = judge(run, rule, goal, [], 'generated', 'generated numeral goal')
+                run.count(('gen-numeral', rule, m, n), nontrivial=(res == 'agree'))
+    except RecursionError:
+        raise
+    except Exception as e:
+        run.stat('numeral_gen:' + type(e).__name__ + ':' + str(e)[:80])
     # ---- apply_theorem_for on theorems that are not first-order patterns, applied partially:
     # a schematic variable in function position receives an abstraction that uses, ignores,
     # duplicates or permutes its arguments; none / one / all of the premises are supplied
@@ -287,7 +322,11 @@ def run_check(tier, seed):
             for x in reversed(xs):
                 b = Lambda(x, b)
             return b
+        t_stage = time.time()
         for name, th in cands[:(25 if tier == 'quick' else 400)]:
+            if tier != 'quick' and time.time() - t_stage > 400:
+                run.stat('higher_order_budget_reached_after:%d' % ho_done)
+                break
             tyinst = {v.name: nat for v in th.prop.get_stvars()}
             fvars = [v for v in th.prop.get_svars() if v.T.is_fun()]
             if not fvars:
@@ -344,7 +383,11 @@ def run_check(tier, seed):
                   'rpow_abs', 'real_of_nat_add', 'real_of_nat_mul', 'real_pow_1', 'real_pow_one']
         xs = [Var('x', RealType), Var('y', RealType), Var('z', RealType)]
         ns = [Var('m', NatType), Var('n', NatType)]
+        t_stage = time.time()
         for k in range(24 if tier == 'quick' else 300):
+            if tier != 'quick' and time.time() - t_stage > 300:
+                run.stat('auto_budget_reached_after:%d' % auto_done)
+                break
             name = r.choice(rules_)
             if not theory.thy.has_theorem(name):
                 continue
